@@ -1,6 +1,7 @@
 import Martian.Lemmas.Grpc
 import Martian.Props.C11.Bounds
 import Martian.Props.C11.EmptyFrames
+import Martian.Props.C11.Header
 /-!
 # C11 — gRPC reframing is invariant to DATA fragmentation and compression
 
